@@ -37,6 +37,7 @@ def check(run, repo, tier):
   r1_validate_before_mutate(run, w)
   r2_documented_lookup(run, w)
   r3_added_record_has_require(run, w)
+  r4_update_lists_in_step(run, w)
 
 
 def _option_vars(fn, p_opts):
@@ -504,6 +505,84 @@ def r3_added_record_has_require(run, w):
              % short(tests[[bool(v) for v in vals].index(False)], 90))
 
 
+# ------------------------------------------------------------------------------------------ R4
+def r4_update_lists_in_step(run, w):
+  R4 = run.rule("C28-R4", "the row ids and the per-column values handed to BulkUpdateRecord grow "
+                "together: one entry each per updated record", floor=1)
+  fn = H.inlined_fn(w, "useractions.UserActions.BulkAddOrUpdateRecord")
+  cfg = fn.cfg
+  du = DefUse(fn)
+  rd = H.ReachDefs(fn, du)
+  p_vals = fn.fi.params()[3]
+  ups = [H.norm(w, fn, c) for (n, c, nm) in fn.calls() if nm == "self.BulkUpdateRecord"]
+  if len(ups) != 1 or len(ups[0].args) != 3 or \
+      not all(isinstance(a, ast.Name) for a in ups[0].args[1:]):
+    raise AnalysisError("BulkAddOrUpdateRecord: self.BulkUpdateRecord(table, <ids>, <values>) "
+                        "with two locals not found")
+  ids, vals = ups[0].args[1].id, ups[0].args[2].id
+  def grow(name, subscripted):
+    out = []
+    for (n, c, nm) in fn.calls():
+      f = c.func
+      if isinstance(f, ast.Attribute) and f.attr in ("append", "extend", "insert") and \
+          len(c.args) >= 1:
+        recv = f.value
+        if subscripted and isinstance(recv, ast.Subscript):
+          recv = recv.value
+        elif subscripted != isinstance(f.value, ast.Subscript):
+          continue
+        if isinstance(recv, ast.Name) and recv.id == name:
+          out.append((n, c))
+    return out
+  gi, gv = grow(ids, False), grow(vals, True)
+  if len(gi) != 1 or len(gv) != 1:
+    raise AnalysisError("BulkAddOrUpdateRecord: expected one place where %s grows and one where "
+                        "the lists of %s grow" % (ids, vals))
+  (ni, ci), (nv, cv) = gi[0], gv[0]
+  def loops_of(n):
+    from ..astutil import enclosing_chain
+    return [s_ for (s_, f_) in enclosing_chain(fn.node, n.stmt)
+            if isinstance(s_, (ast.For, ast.While))]
+  over_columns = lambda lp: isinstance(lp, ast.For) and any(
+    isinstance(x, ast.Name) and x.id in (p_vals, vals) for x in ast.walk(lp.iter))
+  li = loops_of(ni)
+  lv = [l for l in loops_of(nv) if not over_columns(l)]
+  kind = (ci.func.attr, cv.func.attr)
+  if kind == ("append", "append"):
+    ok = [id(x) for x in li] == [id(x) for x in lv]
+    wit = None if ok else "the id and the values are appended in different loops"
+  elif kind == ("extend", "extend"):
+    # ids.extend(<list L>) / values[k].extend([v] * <count>): the count is the length of the very
+    # list the ids come from (same binding of it)
+    tl = cv.args[0]
+    cnt = None
+    if isinstance(tl, ast.BinOp) and isinstance(tl.op, ast.Mult):
+      cnt = tl.right if isinstance(tl.left, ast.List) else tl.left
+    src, at_src = H.resolve(fn, du, rd, ci.args[0], ni.id)
+    base = None
+    if isinstance(src, (ast.ListComp, ast.GeneratorExp)) and len(src.generators) == 1 and \
+        not src.generators[0].ifs and isinstance(src.generators[0].iter, ast.Name):
+      base = (src.generators[0].iter.id, at_src)
+    elif isinstance(ci.args[0], ast.Name):
+      base = (ci.args[0].id, ni.id)
+    cv_, at_c = H.resolve(fn, du, rd, cnt, nv.id) if cnt is not None else (None, None)
+    if base is None or not (isinstance(cv_, ast.Call) and dotted(cv_.func) == "len" and
+                            len(cv_.args) == 1 and isinstance(cv_.args[0], ast.Name)):
+      raise AnalysisError("BulkAddOrUpdateRecord: cannot relate the number of values added per "
+                          "column to the ids added")
+    same = cv_.args[0].id == base[0] and \
+        rd.reaching(base[0], at_c) == rd.reaching(base[0], base[1])
+    ok = same and [id(x) for x in li] == [id(x) for x in lv]
+    wit = None if ok else "the count %s is not the length of the list the ids are taken from " \
+        "(as it is when they are added)" % short(cnt, 40)
+  else:
+    raise AnalysisError("BulkAddOrUpdateRecord: ids grow by %s, values by %s; cannot compare"
+                        % kind)
+  run.ob(R4, fn.qualname, "%s / %s[...] grow together" % (ids, vals),
+         "each updated record contributes exactly one row id and one value per column, so the "
+         "bulk update pairs every id with its own values", ok, witness=wit, fi=fn.fi, node=ci)
+
+
 U = "sandbox/grist/useractions.py"
 VARIANTS = [
   ("on-many-not-validated", U,
@@ -551,6 +630,33 @@ VARIANTS = [
   ("all-formula-flagged-columns-left-out-of-added-records", U,
    "          table.get_column(key).is_formula() and\n          # Check that there actually is a formula and this isn't just an empty column\n          self._engine.docmodel.get_column_rec(table_id, key).formula\n      )",
    "          table.get_column(key).is_formula()\n      )", "C28-R3"),
+  ("update-values-counted-before-first-truncation", U,
+   """        if len(records) > 1:
+          if on_many == "first":
+            records = records[:1]
+          elif on_many == "none":
+            continue
+
+        for record in records:
+          update_record_ids.append(record.id)
+          for key, vals in col_values.items():
+            update_record_values[key].append(vals[i])
+
+        matched_record_ids = [record.id for record in records]
+""",
+   """        num_matched = len(records)
+        if num_matched > 1:
+          if on_many == "first":
+            records = records[:1]
+          elif on_many == "none":
+            continue
+
+        matched_record_ids = [record.id for record in records]
+        update_record_ids.extend(matched_record_ids)
+        for key, vals in col_values.items():
+          update_record_values[key].extend([vals[i]] * num_matched)
+
+""", "C28-R4"),
   ("on-many-last-unvalidated", U,
    "          if on_many == \"first\":\n            records = records[:1]\n          elif on_many == \"none\":",
    "          if on_many == \"first\":\n            records = records[:1]\n          elif on_many == \"last\":\n            records = records[-1:]\n          elif on_many == \"none\":",
